@@ -89,7 +89,7 @@ func pubKey(i int) (pk types.PublicKey) {
 
 func sigHashN(j int) types.Hash256 { return types.Hash256(derive("sighash", j)) }
 func preimageN(i int) [32]byte     { return derive("pre", i) }
-func rawAddrN(i int) types.Address  { return types.Address(derive("opaque", i)) }
+func rawAddrN(i int) types.Address { return types.Address(derive("opaque", i)) }
 
 func (s SigSpec) sig() (out types.Signature) {
 	if s.K >= 0 {
